@@ -9,10 +9,11 @@ P = {'id': 'C19',
               'replace_crash_safe',
               'mv_set_len_safe',
               'ro_roundtrip',
+              'ro_truncated_refused',
               'mv_torn_rewrite_v0_refuted'],
  'trusted': ['modelled (M+S): src/memory/mmap_vec.rs MmapVecHeader::validate, open/validate_file_length, len/get, the file image sync() writes and the '
              'file operations sync()/resize_to_capacity issue; src/blob_store/reorder_map.rs builder record encoding and open/validate_entries/iteration '
-             '(model evaluated against the real reader and writer on every run; round-trip theorem)',
+             '(model evaluated against the real reader and writer on every run; round-trip and truncation theorems)',
              'spec-only (oracle on the real code, no mechanism model): PlainBlobStore, ZipOffsetBlobStore, SuffixArrayDictionary save/load, '
              'MemoryMappedOutput -> MemoryMappedInput',
              'the in-process file-operation tracer of the harness (libc symbol interposition; self-tested at start-up and cross-checked against the '
@@ -33,7 +34,7 @@ P = {'id': 'C19',
                'crash points and all byte strings.',
  'level_note': 'Trusted: Coq kernel + vm_compute; the hand-written model (agreement with the code is checked on generated cases only); the harness '
                'tracer, crash relation, generators and oracle. Oracle-only cells: PlainBlobStore, ZipOffsetBlobStore, SuffixArrayDictionary, '
-               'MemoryMappedOutput/Input. ZReorderMap: executable model of writer and reader checked against the code, round-trip theorem.',
+               'MemoryMappedOutput/Input. ZReorderMap: executable model of writer and reader checked against the code, round-trip and truncation theorems.',
  'technique': 'Coq proof (list/firstn/skipn reasoning, case analysis over the crash relation, lia) + model/implementation differential check evaluated by '
               'vm_compute + traced crash-image oracle with reopen in a separate process',
  'explanation': 'Unbounded Coq theorems about a Gallina restatement of MmapVec open/sync and an explicit crash relation + differential check of the model '
